@@ -11,3 +11,7 @@ from sa import orient
 rc = orient.build_reference(sys.argv[1] if len(sys.argv) > 1 else "/repo")
 json.dump(rc, open(os.path.join(os.path.dirname(os.path.abspath(__file__)), "..", "sa", "ref_compares.json"), "w"), indent=0, sort_keys=True)
 print(len(rc), "functions,", sum(len(v) for v in rc.values()), "comparisons")
+from sa import inline
+rf = inline.build_reference(sys.argv[1] if len(sys.argv) > 1 else "/repo")
+json.dump(rf, open(os.path.join(os.path.dirname(os.path.abspath(__file__)), "..", "sa", "ref_functions.json"), "w"), indent=0, sort_keys=True)
+print(len(rf), "modules,", sum(len(v["functions"]) for v in rf.values()), "function / class names,", sum(len(v["globals"]) for v in rf.values()), "module-level names")
